@@ -668,26 +668,30 @@ def r_leaf_skip_and_filter(ctx):
                 if e.kind == "call" and e.d["fn"] == fn:
                     ok = fr in [unmut(a) for a in e.d["args"]]
                     obs.append(Ob("R-FILTER-GUARD", fn, "recursive call forwards the same filter", ok, "args: %s" % ", ".join(tstr(unmut(a))[:30] for a in e.d["args"]), e.loc()))
-            # R-LEAF-SKIP: a `continue` taken for a leaf entry before recursing must be conditioned on entry.tile_id > end_inclusive
-            for i, d in enumerate(list(p.decisions())):
-                c = unmut(d.d["cond"])
-                if d.d["how"] == "if" and c[0] == "bin" and c[1] in (">", ">=", "<", "<=") and any(t[0] == "f" and t[2] == "tile_id" for t in list(subterms(c[2])) + list(subterms(c[3]))):
-                    # is this the skip decision? it is taken inside the leaf arm and followed directly by loop exit (continue)
-                    taken = d.d["outcome"] is True
-                    nxt = [x for x in p.events if x.seq > d.seq and x.kind in ("call", "loop", "decide", "exit")]
-                    skipped = taken and nxt and nxt[0].kind == "loop" and nxt[0].d.get("how") == "continue"
-                    if not skipped:
-                        continue
-                    skip_seen = True
-                    tid, end = (c[2], c[3]) if c[1] in (">", ">=") else (c[3], c[2])
-                    strict = c[1] in (">", "<")
-                    end_ok = is_call_to(end, lambda s: s.endswith("::unwrap_or")) and is_call_to(end[2][0], lambda s: s in rfn) and end[2][0][2][0] == fr and end[2][1] == C((1 << 64) - 1)
-                    tid_ok = tid[0] == "f" and tid[2] == "tile_id" and tid[1][0] == "elem"
-                    obs.append(Ob("R-LEAF-SKIP", fn, "leaf skipped only if its first id is strictly beyond the inclusive range end (unbounded ⇒ never)", strict and end_ok and tid_ok,
-                                  "skip condition: %s" % tstr(c)[:140], d.loc()))
-                    # must not depend on the start bound
-                    dep_start = any(is_call_to(t, lambda s: s.endswith("::start_bound")) for t in subterms(c))
-                    obs.append(Ob("R-LEAF-SKIP", fn, "skip does not look at the range start", not dep_start, "condition mentions start_bound: %s" % dep_start, d.loc()))
+            # R-LEAF-SKIP: an iteration that handles a leaf entry but ends without recursing has skipped that leaf; the only admissible reason is
+            # `entry.tile_id > inclusive end` (strict; unbounded end ⇒ u64::MAX ⇒ never), in whatever form the test is written
+            recs = [e for e in p.events if e.kind == "call" and e.d["fn"] == fn]
+            leaf_facts = [(fct, d) for fct, d in path_facts(p) if d.loops]
+            is_leaf_iter = any((fct[0] == "eq" and fct[2] == 0 and fct[1][0] == "f" and fct[1][2] == "run_length") or
+                               (fct[0] == "bool" and is_call_to(fct[1], lambda s: s.endswith("::is_leaf_dir_entry")) and fct[2] is True) for fct, d in leaf_facts)
+            ends_iter = any(e.kind == "loop" and e.d["what"] == "exit" for e in p.events)
+            errs_out = p.exit == "err"
+            if is_leaf_iter and not recs and ends_iter and not errs_out:
+                skip_seen = True
+                rels = []
+                for fct, d in leaf_facts:
+                    if fct[0] == "rel" and fct[1] in ("<", "<=", ">", ">="):
+                        l, r = fct[2], fct[3]
+                        if l[0] == "f" and l[2] == "tile_id" and l[1][0] == "elem":
+                            rels.append((fct[1], l, r, d))
+                        elif r[0] == "f" and r[2] == "tile_id" and r[1][0] == "elem":
+                            rels.append(({"<": ">", "<=": ">=", ">": "<", ">=": "<="}[fct[1]], r, l, d))
+                good = [x for x in rels if x[0] == ">" and _is_inclusive_end(x[2], rfn, fr)]
+                where = (rels[0][3].loc() if rels else rel(f["loc"]))
+                obs.append(Ob("R-LEAF-SKIP", fn, "leaf skipped only if its first id is strictly beyond the inclusive range end (unbounded ⇒ never)", bool(good),
+                              "facts about the leaf's first id on the skipping path: %s" % (", ".join("tile_id %s %s" % (x[0], tstr(x[2])[:60]) for x in rels) or "none"), where))
+                dep_start = any(is_call_to(t_, lambda s: s.endswith("::start_bound")) for x in rels for t_ in subterms(x[2]))
+                obs.append(Ob("R-LEAF-SKIP", fn, "skip does not look at the range start", not dep_start, "condition mentions start_bound: %s" % dep_start, where))
         if n_ins == 0:
             obs.append(Ob("R-FILTER-GUARD", fn, "insert site", False, "walker never inserts", rel(f["loc"])))
         # a skip that exists nowhere is fine for correctness (just slower): no obligation
@@ -714,7 +718,9 @@ def r_partial_same(ctx):
                 ok = rng == V("param:tiles_filter_range")
             else:
                 ok = is_call_to(rng, lambda s: s == "core::ops::range::RangeFull") or (isinstance(rng, tuple) and rng[0] == "struct" and rng[1] == "core::ops::range::RangeFull")
-            obs.append(Ob("R-PARTIAL-SAME", f["path"], "opener called with %s" % ("the caller's range" if partial else "the full range `..`"), ok and v[2][0] == V("param:input"), "range argument = %s" % tstr(rng)[:60], rel(f["loc"])))
+            src = v[2][0]
+            src_ok = src == V("param:input") or (is_call_to(src, lambda s: s.endswith("Cursor::<T>::new")) and src[2] and src[2][0] == V("param:bytes"))
+            obs.append(Ob("R-PARTIAL-SAME", f["path"], "opener called with %s" % ("the caller's range" if partial else "the full range `..`"), ok and src_ok, "range argument = %s" % tstr(rng)[:60], rel(f["loc"])))
     # wrappers of wrappers (from_bytes*) forward unchanged
     wn = set(f["path"] for f in wrappers)
     for f in ctx.user_fns():
@@ -980,7 +986,12 @@ def _strict_block_test(fa, p, e, tid):
     return False
 
 
+_CTX = None
+
+
 def r_hilbert_call(ctx):
+    global _CTX
+    _CTX = ctx
     obs = []
     enc = [f for f in ctx.user_fns() if any("xy2h_discrete" in c["fn"] for c in calls(f["body"]))]
     dec = [f for f in ctx.user_fns() if any("h2xy_discrete" in c["fn"] for c in calls(f["body"]))]
@@ -1043,6 +1054,14 @@ def _is_pow4_sum(t, z):
     rng, clos = m[2]
     if not (rng[0] == "struct" and rng[1] == "core::ops::range::Range" and struct_field(rng, "start") == C(1) and _strip_cast(struct_field(rng, "end")) == z):
         return False
+    if clos[0] == "call" and clos[3] is None and not clos[2] and _CTX is not None and _CTX.fn(clos[1]) is not None:
+        # a function item used as the mapper: it must itself be `|i| 4^i`
+        g = _CTX.fn(clos[1])
+        ga = _CTX.fa(g)
+        if len(ga.paths) != 1 or len(ga.param_names) != 1:
+            return False
+        body = unmut(ga.paths[0].value)
+        return is_call_to(body, lambda s: s.endswith("::pow")) and body[2][0] == C(4) and _strip_cast(body[2][1]) == V("param:" + ga.param_names[0])
     if clos[0] != "clos" or not clos[2]:
         return False
     body = clos[2][0]
@@ -1062,3 +1081,8 @@ def _filtered_by(key, fr):
                     return True
         it = it[2][0]
     return False
+
+
+def _is_inclusive_end(end, rfn, fr):
+    end = unmut(end)
+    return is_call_to(end, lambda s: s.endswith("::unwrap_or")) and is_call_to(end[2][0], lambda s: s in rfn) and end[2][0][2][0] == fr and end[2][1] == C((1 << 64) - 1)
